@@ -52,33 +52,51 @@ theorem C14_patBind_correct (env : EnumEnv) (p : Pat) (π : Path) (ty : Ty) (D :
       some (mk stk ((bindingsOf env ty (resolveP env π ty p D) v).reverse ++ locs) tk none) :=
   bind_ok env p π ty D v stk locs tk ht hv hm
 
-/-- `let` / `for` destructuring: the code run by `let pat = v` binds every variable of an or-free
-    pattern that matches `v` and restores the stack -/
-theorem C14_let_destructuring (env : EnumEnv) (p : Pat) (ty : Ty) (v : Val) (stk : List SVal)
-    (ht : patTyped env p ty = true) (hv : hasTy env v ty = true) (hof : orCount p = 0)
-    (hm : pmatch p v = true) :
-    runLet env ty p v stk = some ((bindingsOf env ty p v).reverse, stk) := by
-  have h := bind_ok env p [0] ty [] v stk [] none ht hv (by rw [(orfree_resolve env p [0] ty [] hof).1]; exact hm)
-  rw [(orfree_resolve env p [0] ty [] hof).1] at h
-  unfold runLet
-  simp only []
-  have hst : (if ty.isVoid = true then stk else repr env ty v :: stk) = slot env ty v ++ stk := by
-    simp only [slot]; split <;> rfl
-  rw [hst]
-  show (match run (bind env [0] ty p []) (mk (slot env ty v ++ stk) [] none none) with
-    | none => none
-    | some st => some (st.locals, st.stack)) = _
-  rw [h]; simp
+/-- **`let` / `var` / `for` as the code is** (`bind_irrefutable_pat`, after D103; any or-patterns): the
+    variables are bound under the FIRST combination of or-pattern alternatives, in the order of the arm
+    loop, whose selected alternative matches the value; the value is consumed, nothing else touched. -/
+theorem C14_let_binds_first_combination (env : EnumEnv) (ty : Ty) (p : Pat) (v : Val) (stk : List SVal)
+    (hnv : ty.isVoid = false) (ht : patTyped env p ty = true) (hv : hasTy env v ty = true)
+    (r : Nat) (D : List Path) (c : List Instr)
+    (hr : (armPasses env ty 0 p (2 ^ orCount p) 0 []).findIdx? (fun x => pmatch (resolveP env [0] ty p x.1) v) = some r)
+    (hx : (armPasses env ty 0 p (2 ^ orCount p) 0 [])[r]? = some (D, c)) :
+    runLet env ty p v stk = some ((bindingsOf env ty (resolveP env [0] ty p D) v).reverse, stk) :=
+  runLet_general env ty p v stk hnv ht hv r D c hr hx
 
-/-- **Destructuring accepted by the checker binds like the matching arm would**: for an or-free
-    pattern that `checkLet` (C12) accepts, `let p = v` / `for p in …` stores, for EVERY well-typed
-    value, exactly what a match arm `p` would bind, and restores the stack — the binding code does not
-    compare, and by `C12_let_accepted_irrefutable` it never needs to. -/
+/-- `let` / `for` destructuring: a pattern that is an or-chain `a | b | c` of or-free alternatives
+    (a pattern without or-patterns is the chain of length one) and matches `v` binds exactly what it
+    binds as a match arm — through its first alternative that matches — and restores the stack -/
+theorem C14_let_destructuring (env : EnumEnv) (p : Pat) (ty : Ty) (v : Val) (stk : List SVal)
+    (hnv : ty.isVoid = false) (ht : patTyped env p ty = true) (hv : hasTy env v ty = true) (hch : isChain p)
+    (hm : pmatch p v = true) :
+    runLet env ty p v stk = some ((bindingsOf env ty p v).reverse, stk) :=
+  runLet_chain env ty p v stk hnv ht hch hv hm
+
+/-- **Destructuring accepted by the checker binds like the matching arm would** (`_partial` only in
+    that or-patterns must form a chain of or-free alternatives, e.g. `(d, _) | (_, d)`,
+    `.A(x) | .B(x) | _`; NOT restricted to or-free patterns any more): for a pattern that `checkLet`
+    (C12) accepts, `let p = v` / `var` / `for p in …` stores, for EVERY well-typed value, exactly what
+    a match arm `p` would bind (`bindingsOf`: through the first alternative that matches), and
+    restores the stack.  For or-patterns nested inside constructor patterns the proved statement is
+    `C14_let_binds_first_combination`. -/
 theorem C14_let_accepted_binds (env : EnumEnv) (hinh : Inhabited' env) (p : Pat) (ty : Ty) (fuel : Nat)
-    (ht : patTyped env p ty = true) (hof : orCount p = 0) (hacc : checkLet env fuel ty p = some true)
+    (hnv : ty.isVoid = false) (ht : patTyped env p ty = true) (hch : isChain p)
+    (hacc : checkLet env fuel ty p = some true)
     (v : Val) (hv : hasTy env v ty = true) (stk : List SVal) :
     runLet env ty p v stk = some ((bindingsOf env ty p v).reverse, stk) :=
-  C14_let_destructuring env p ty v stk ht hv hof (C12_let_accepted_irrefutable hinh ht hacc v hv)
+  C14_let_destructuring env p ty v stk hnv ht hv hch (C12_let_accepted_irrefutable hinh ht hacc v hv)
+
+def d103Env : EnumEnv := fun _ => [[.int, .int], [.int]]
+
+/-- **D103 regression** (repaired by ae0a5b4): `let (Ee.Aa(_, _) | _) = Ee.Bb(0)` binds through the
+    alternative that matches (nothing to bind, value consumed) instead of deconstructing `Bb`'s payload
+    as `Aa`'s; and `let (Ee.Aa(x, _) | Ee.Bb(x)) = Ee.Bb(5)` binds `x` to 5 -/
+theorem C14_d103_regression :
+    (runLet d103Env (.enum 0) (.or (.variantPos 0 0 (.tuple [.wild, .wild])) .wild) (.variant 1 (.int 0)) []).map
+        (fun r => (r.1.length, r.2.length)) = some (0, 0) ∧
+    (runLet d103Env (.enum 0) (.or (.variantPos 0 0 (.tuple [.bind 0, .wild])) (.variantPos 0 1 (.bind 0)))
+        (.variant 1 (.int 5)) []).map (fun r => (r.1.map (fun x => x.1), r.2.length)) = some ([0], 0) := by
+  decide +kernel
 
 /-- **The match as the code is** (every arm list, any or-patterns): the `ExprKind::Match` code enters
     the body of the FIRST PASS, in emission order, whose selected alternative (`passPat`) matches the
